@@ -315,6 +315,13 @@ func fileFlushAux(L *LState, file *lFile) int {
 			return 2
 		}
 	}
+	// a flush separates reading from writing: what was read ahead is given back, so that the next
+	// write lands at the cursor the script sees
+	if err := file.AbandonReadBuffer(); err != nil {
+		L.Push(LNil)
+		L.Push(LString(err.Error()))
+		return 2
+	}
 	L.Push(LTrue)
 	return 1
 }
